@@ -169,6 +169,7 @@ class ExtractedSlice(Extracted):
 
     def __init__(self, base: Extracted, stmts, description):
         self.mod, self.qualname, self.cls = base.mod, base.qualname + "#" + description, base.cls
+        self.base = base
         src = module_ast(base.mod)[0]
         self.node = ast.FunctionDef(name=base.node.name, args=base.node.args, body=list(stmts), decorator_list=[], returns=None, type_comment=None,
                                     lineno=base.node.lineno, col_offset=0)
@@ -191,3 +192,16 @@ def get_slice(mod, qualname, selector, description) -> ExtractedSlice:
     if not stmts:
         raise KeyError(f"{mod}:{qualname}: no statements match the slice '{description}' (contract drift)")
     return ExtractedSlice(base, stmts, description)
+
+
+BENIGN_DECORATORS = {"property", "classmethod", "staticmethod", "abc.abstractmethod", "abc.abstractproperty", "abstractmethod", "torch.jit.unused",
+                     "torch.no_grad()", "torch.jit.script_if_tracing", "torch.jit.export", "torch.jit.ignore", "kaldi_vlog_level_cmd_decorator",
+                     "kaldi_logger_decorator"}
+
+
+def odd_decorators(fx):
+    """decorators of the extracted function (or of the function a slice was cut from) that are not known to leave the result of a call
+    alone: the extraction DROPS decorators, so such a function must not be reported as verified"""
+    node = getattr(getattr(fx, "base", None), "node", None) or getattr(fx, "node", None)
+    decs = [ast.unparse(d) for d in getattr(node, "decorator_list", [])]
+    return [d for d in decs if d not in BENIGN_DECORATORS and not d.endswith(".setter")]
